@@ -1,6 +1,7 @@
 use crate::runner::{CheckDef, Tier};
 
 pub mod c09;
+pub mod c11;
 
 pub const ALL: [&str; 19] = [
     "C01", "C02", "C03", "C04", "C05", "C06", "C07", "C08", "C09", "C10", "C11", "C12", "C13", "C14",
@@ -10,6 +11,7 @@ pub const ALL: [&str; 19] = [
 pub fn get(id: &str, tier: Tier) -> Option<CheckDef> {
     Some(match id {
         "C09" => c09::def(tier),
+        "C11" => c11::def(tier),
         _ => return None,
     })
 }
